@@ -8,99 +8,17 @@ import (
 	vaxis "git.sr.ht/~rockorager/vaxis"
 	"pgregory.net/rapid"
 
+	"verif/internal/frames"
 	"verif/internal/gen"
 	"verif/internal/harness"
 	"verif/internal/model"
 	"verif/internal/refterm"
 	"verif/internal/vxdrive"
-	"verif/internal/widthtab"
 )
 
 func TestMain(m *testing.M) { harness.Main(m, "C01") }
 
-type Op struct {
-	Kind  string          `json:"k"` // clear fill set style print show hide
-	Col   int             `json:"c,omitempty"`
-	Row   int             `json:"r,omitempty"`
-	Cell  model.CellSpec  `json:"cell,omitempty"`
-	Text  []string        `json:"text,omitempty"` // print: graphemes
-	Style model.StyleSpec `json:"style,omitempty"`
-	Shape int             `json:"shape,omitempty"`
-}
-
-type Scrib struct {
-	Row, Col int
-	G        string
-	W        int
-}
-
-type Frame struct {
-	Ops      []Op    `json:"ops"`
-	End      string  `json:"end"` // render | refresh | resize
-	Cols     int     `json:"cols,omitempty"`
-	Rows     int     `json:"rows,omitempty"`
-	Scribble []Scrib `json:"scribble,omitempty"`
-}
-
-type Case struct {
-	Cols   int          `json:"cols"`
-	Rows   int          `json:"rows"`
-	Caps   refterm.Caps `json:"caps"`
-	Opts   vxdrive.Opts `json:"opts"`
-	Frames []Frame      `json:"frames"`
-}
-
 type cursorWant = model.CursorWant
-
-// applyMirror applies one op to the harness mirror.
-func applyMirror(m *model.Mirror, cw *cursorWant, op Op, method widthtab.Method) {
-	switch op.Kind {
-	case "clear":
-		m.Clear()
-	case "fill":
-		m.Fill(op.Cell)
-	case "set":
-		m.Set(op.Col, op.Row, op.Cell)
-	case "style":
-		m.SetStyle(op.Col, op.Row, op.Style)
-	case "print":
-		col := op.Col
-		for _, g := range op.Text {
-			w, _ := widthtab.Width(g, method)
-			m.Set(col, op.Row, model.CellSpec{G: g, W: w, Style: op.Style})
-			col += w
-		}
-	case "show":
-		*cw = cursorWant{Visible: true, Col: op.Col, Row: op.Row, Shape: op.Shape}
-	case "hide":
-		cw.Visible = false
-	}
-}
-
-func applyVaxis(vx *vaxis.Vaxis, op Op) {
-	win := vx.Window()
-	switch op.Kind {
-	case "clear":
-		win.Clear()
-	case "fill":
-		win.Fill(op.Cell.Vaxis())
-	case "set":
-		win.SetCell(op.Col, op.Row, op.Cell.Vaxis())
-	case "style":
-		win.SetStyle(op.Col, op.Row, op.Style.Vaxis())
-	case "print":
-		text := ""
-		for _, g := range op.Text {
-			text += g
-		}
-		w, _ := win.Size()
-		win.New(op.Col, op.Row, w-op.Col, 1).Print(vaxis.Segment{Text: text, Style: op.Style.Vaxis()})
-	case "show":
-		vx.ShowCursor(op.Col, op.Row, vaxis.CursorStyle(op.Shape))
-	case "hide":
-		vx.HideCursor()
-	}
-}
 
 func checkFrame(s *vxdrive.Session, tc model.TermConfig, m *model.Mirror, cw cursorWant, what string) string {
 	return model.CheckDisplay(s.Term, tc, m, cw, what)
@@ -108,7 +26,7 @@ func checkFrame(s *vxdrive.Session, tc model.TermConfig, m *model.Mirror, cw cur
 
 var run = harness.Confirm(runOnce, 2)
 
-func runOnce(c Case) string {
+func runOnce(c frames.Case) string {
 	s, err := vxdrive.Start(c.Cols, c.Rows, c.Caps, c.Opts)
 	if err != nil {
 		return "vaxis.New failed: " + err.Error()
@@ -129,8 +47,8 @@ func runOnce(c Case) string {
 	cw := cursorWant{}
 	for fi, f := range c.Frames {
 		for _, op := range f.Ops {
-			applyMirror(m, &cw, op, method)
-			applyVaxis(s.Vx, op)
+			frames.ApplyMirror(m, &cw, op, method)
+			frames.ApplyVaxis(s.Vx, op)
 		}
 		what := fmt.Sprintf("frame %d (%s)", fi, f.End)
 		s.TTY.TakeOut()
@@ -219,201 +137,12 @@ func dumpRows(s *vxdrive.Session) string {
 	return out
 }
 
-// ---------------------------------------------------------------------------
-// generator
-
-func genOps(rt *rapid.T, m *model.Mirror, cw *cursorWant, tc model.TermConfig, styles []model.StyleSpec, n int) []Op {
-	method := tc.Method()
-	var ops []Op
-	for i := 0; i < n; i++ {
-		var op Op
-		switch rapid.IntRange(0, 15).Draw(rt, "op") {
-		case 0:
-			op = Op{Kind: "clear"}
-		case 1:
-			cell := gen.Cell(rt, styles, method, m.Cols, tc.Caps.ExplicitWidth)
-			op = Op{Kind: "fill", Cell: cell}
-		case 2, 3, 4, 5, 6, 7, 8:
-			col := rapid.IntRange(0, m.Cols-1).Draw(rt, "col")
-			row := rapid.IntRange(0, m.Rows-1).Draw(rt, "row")
-			op = Op{Kind: "set", Col: col, Row: row, Cell: gen.Cell(rt, styles, method, m.Cols-col, tc.Caps.ExplicitWidth)}
-		case 9, 10:
-			op = Op{Kind: "style", Col: rapid.IntRange(0, m.Cols-1).Draw(rt, "col"), Row: rapid.IntRange(0, m.Rows-1).Draw(rt, "row"),
-				Style: rapid.SampledFrom(styles).Draw(rt, "st")}
-		case 11, 12:
-			col := rapid.IntRange(0, m.Cols-1).Draw(rt, "col")
-			row := rapid.IntRange(0, m.Rows-1).Draw(rt, "row")
-			room := m.Cols - col
-			var text []string
-			k := rapid.IntRange(1, 6).Draw(rt, "nchars")
-			for j := 0; j < k; j++ {
-				g := gen.Grapheme(rt, "pg")
-				if e, _ := widthtab.Lookup(g); e.Class == "zero" && j > 0 {
-					// a combining mark or ZWJ would merge with the
-					// previous cluster: the text would not be the
-					// clusters the mirror records
-					continue
-				}
-				w, _ := widthtab.Width(g, method)
-				if w > room {
-					break
-				}
-				room -= w
-				text = append(text, g)
-			}
-			if len(text) == 0 {
-				continue
-			}
-			op = Op{Kind: "print", Col: col, Row: row, Text: text, Style: rapid.SampledFrom(styles).Draw(rt, "st")}
-		case 13, 14:
-			op = Op{Kind: "show", Col: rapid.IntRange(0, m.Cols-1).Draw(rt, "ccol"), Row: rapid.IntRange(0, m.Rows-1).Draw(rt, "crow"),
-				Shape: rapid.IntRange(0, 6).Draw(rt, "shape")}
-		case 15:
-			op = Op{Kind: "hide"}
-		}
-		// keep the history inside the domain: no glyph across the right edge
-		trial := cloneMirror(m)
-		tcw := *cw
-		applyMirror(trial, &tcw, op, method)
-		if _, overflow := tc.Expected(trial); overflow > 0 {
-			harness.R.Excluded("histories", "op would put a wide glyph across the right edge")
-			continue
-		}
-		applyMirror(m, cw, op, method)
-		ops = append(ops, op)
-	}
-	return ops
-}
-
-func cloneMirror(m *model.Mirror) *model.Mirror {
-	n := model.NewMirror(m.Cols, m.Rows)
-	for r := range m.Cells {
-		copy(n.Cells[r], m.Cells[r])
-	}
-	return n
-}
-
-var scribbleGlyphs = []struct {
-	g string
-	w int
-}{{"X", 1}, {"#", 1}, {"宽", 2}, {"", 1}}
-
-func genScribble(rt *rapid.T, cols, rows int) []Scrib {
-	var out []Scrib
-	n := rapid.IntRange(0, 5).Draw(rt, "nscribble")
-	for i := 0; i < n; i++ {
-		sg := rapid.SampledFrom(scribbleGlyphs).Draw(rt, "sg")
-		if sg.w > cols {
-			continue
-		}
-		out = append(out, Scrib{Row: rapid.IntRange(0, rows-1).Draw(rt, "srow"), Col: rapid.IntRange(0, cols-sg.w).Draw(rt, "scol"), G: sg.g, W: sg.w})
-	}
-	return out
-}
-
-func genCase(rt *rapid.T) Case {
-	c := Case{}
-	if rapid.IntRange(0, 19).Draw(rt, "big") == 0 {
-		c.Cols, c.Rows = rapid.IntRange(13, 40).Draw(rt, "cols"), rapid.IntRange(1, 12).Draw(rt, "rows")
-	} else {
-		c.Cols, c.Rows = rapid.IntRange(1, 12).Draw(rt, "cols"), rapid.IntRange(1, 6).Draw(rt, "rows")
-	}
-	c.Caps = gen.Caps(rt)
-	if c.Cols == 1 && c.Caps.ExplicitWidth {
-		// the explicit-width probe (print one cell, ask for the column)
-		// cannot be answered on a one-column screen: not advertisable
-		c.Caps.ExplicitWidth = false
-		harness.R.Excluded("histories", "explicit width on a 1-column terminal")
-	}
-	c.Opts = vxdrive.Opts{DisableKitty: rapid.Bool().Draw(rt, "nokitty"), DisableMouse: rapid.Bool().Draw(rt, "nomouse")}
-	tc := model.TermConfig{Caps: c.Caps}
-	styles := gen.Styles(rt, rapid.IntRange(1, 4).Draw(rt, "nstyles"))
-	m := model.NewMirror(c.Cols, c.Rows)
-	cw := cursorWant{}
-	nf := rapid.IntRange(1, harness.Scale(6, 12)).Draw(rt, "nframes")
-	for i := 0; i < nf; i++ {
-		f := Frame{}
-		f.Ops = genOps(rt, m, &cw, tc, styles, rapid.IntRange(0, 8).Draw(rt, "nops"))
-		switch rapid.IntRange(0, 9).Draw(rt, "end") {
-		case 0, 1:
-			f.End = "refresh"
-			f.Scribble = genScribble(rt, m.Cols, m.Rows)
-		case 2:
-			f.End = "resize"
-			f.Scribble = genScribble(rt, m.Cols, m.Rows)
-			f.Cols, f.Rows = rapid.IntRange(1, 12).Draw(rt, "ncols"), rapid.IntRange(1, 6).Draw(rt, "nrows")
-			// drawing done in this frame is discarded by the resize
-			if f.Cols != m.Cols || f.Rows != m.Rows {
-				m = model.NewMirror(f.Cols, f.Rows)
-			}
-			if cw.Col >= f.Cols || cw.Row >= f.Rows {
-				cw.Visible = false
-			}
-		default:
-			f.End = "render"
-		}
-		c.Frames = append(c.Frames, f)
-	}
-	return c
-}
-
-// classify computes labels / non-triviality by replaying the mirror.
-func classify(sub string, c Case) {
-	tc := model.TermConfig{Caps: c.Caps}
-	method := tc.Method()
-	m := model.NewMirror(c.Cols, c.Rows)
-	cw := cursorWant{}
-	var prev [][]model.ExpCell
-	rendered, rewrites := 0, false
-	for _, f := range c.Frames {
-		for _, op := range f.Ops {
-			applyMirror(m, &cw, op, method)
-			harness.R.Label(sub, "op:"+op.Kind)
-		}
-		harness.R.Label(sub, "end:"+f.End)
-		if f.End == "resize" {
-			if f.Cols != m.Cols || f.Rows != m.Rows {
-				m = model.NewMirror(f.Cols, f.Rows)
-			}
-			prev = nil
-			continue
-		}
-		rendered++
-		exp, _ := tc.Expected(m)
-		if prev != nil && len(prev) == len(exp) {
-			for r := range exp {
-				for col := range exp[r] {
-					a, b := prev[r][col], exp[r][col]
-					if a.G != b.G || a.W != b.W {
-						rewrites = true
-						switch {
-						case a.W >= 2 && b.W == 1:
-							harness.R.Label(sub, "wide->narrow")
-						case a.W == 1 && b.W >= 2:
-							harness.R.Label(sub, "narrow->wide")
-						case a.W == 0 && b.W >= 1:
-							harness.R.Label(sub, "covered->lead")
-						}
-					}
-				}
-			}
-		}
-		prev = exp
-	}
-	if rendered >= 2 && rewrites {
-		harness.R.Nontrivial(sub, c)
-		harness.R.Label(sub, "nontrivial")
-	}
-	harness.R.Label(sub, "method:"+method.String())
-	harness.R.Sample(sub, c)
-}
-
 func TestHistories(t *testing.T) {
 	const sub = "histories"
 	n := harness.PerShard(harness.Scale(60_000, 3_000_000))
-	harness.Check(t, sub, n, func(rt *rapid.T) Case {
-		c := genCase(rt)
-		classify(sub, c)
+	harness.Check(t, sub, n, func(rt *rapid.T) frames.Case {
+		c := frames.GenCase(rt)
+		frames.Classify(sub, c)
 		return c
 	}, run)
 }
